@@ -135,6 +135,9 @@ def reload_side(ctx):
     traces += t2
     metas += m2
     ctx.coverage["sync_loop_term_injection_points"] = len(t2)
+    # the sync worker's loop against specs/SyncLoop.tla: nothing is taken off a listen queue after the stop request, except
+    # the accept that was under way
+    syncloop.model_traces(ctx, {"AtMostOneAcceptAfterStop"}, "C10")
     verdicts, stats = tlc.validate_batch("ReloadTrace", "ReloadTrace.cfg", traces, name="ReloadTrace_C10")
     ctx.add_traces(len(traces), stats)
 
@@ -421,6 +424,11 @@ def run_timeout(wk, scenario, timeout=2):
 
 
 def timeout_side(ctx):
+    # worker side of the heartbeat: specs/SyncLoop.tla (TLC: safety + liveness) and the real sync loop against it -- at most
+    # one blocking operation between two notify() calls; a worker that lost its parent or was told to stop leaves its loop
+    from props import syncloop
+    syncloop.design(ctx)
+    syncloop.model_traces(ctx, {"BeatBeforeEveryBlockingOp", "Leaves"}, "C11")
     plan = [("sync", "hang"), ("gthread", "stop"), ("sync", "healthy"), ("gevent", "healthy"), ("sync", "healthy2"),
             ("sync", "healthy_busy"), ("sync", "stop_busymaster"), ("sync", "hup_hang"), ("sync", "hup_healthy"), ("gthread", "healthy_full"), ("gthread", "healthy_idle_keepalive"), ("gevent", "healthy_draining"), ("eventlet", "healthy_draining"),
             ("sync", "healthy_inherited")] if ctx.quick else \
